@@ -374,7 +374,8 @@ def verify(rep, prog):
     if not vs:
         rep.violation("ANCHOR", "PwHash::verify", "not found")
         return
-    for v in vs:
+    from ..inline import inline
+    for v in [inline(prog, v_) for v_ in vs]:      # the comparison may sit in a closure / private helper
         cands = [prog.by_key[k] for k in prog.reach_fns([v]) if returns_result(prog.by_key[k])]
 
         def prims(f):
